@@ -594,7 +594,7 @@ func (r *Rand) Intn(n int) int {
 	return int(r.Uint64() % uint64(n))
 }
 
-func (r *Rand) Bool() bool      { return r.Uint64()&1 == 1 }
+func (r *Rand) Bool() bool           { return r.Uint64()&1 == 1 }
 func (r *Rand) Chance(n, d int) bool { return r.Intn(d) < n }
 
 // Mix derives an independent seed from a seed and labels.
